@@ -2,7 +2,7 @@
   Driver.Ast — protocol handlers of components `ast` and `walk` (property C13).
 
   ast run <N> <cmp> <ops>
-      N    pool size (node ids are the digits 0..N-1)
+      N    pool size (node ids are single characters: 0..9, then A..Z for 10..35)
       cmp  `-` (compare ids) or N*N chars over l/e/g, row major: cmp(a,b) = table[a*N+b] (l=-1, e=0, g=1)
       ops  `-` (none) or `;`-separated tokens  a<p><c> | b<p><v><c> | f<p><v><c> | r<p><v><c> | d<p><c> | x<p> | s<p>
            (p digit; v, c digit or `n` = nil)
@@ -22,7 +22,11 @@ namespace Driver
 open GM GM.Spec GM.AstHeap
 open GM.Spec.Forest (Op)
 
-def astDigit? (c : Char) : Option Nat := if c.isDigit then some (c.toNat - 48) else none
+/-- node ids: `0`..`9` then `A`..`Z` (ids 10..35) — one character per id, never `n` (nil) -/
+def astDigit? (c : Char) : Option Nat :=
+  if c.isDigit then some (c.toNat - 48) else if c.isUpper then some (c.toNat - 65 + 10) else none
+def astIdStr (n : Nat) : String :=
+  if n < 10 then toString n else if n < 36 then String.singleton (Char.ofNat (65 + (n - 10))) else "?" ++ toString n
 def astRef? (c : Char) : Option (Option Nat) := if c == 'n' then some none else (astDigit? c).map some
 
 def astParseCmp (n : Nat) (s : String) : Nat → Nat → Int :=
@@ -49,13 +53,13 @@ def parseAstOps (cmp : Nat → Nat → Int) (s : String) : Option (List Op) :=
   if s == "_" || s == "-" then some [] else (s.splitOn ";").mapM (parseAstOp cmp)
 
 def astOptDigit : Option Nat → String
-  | some n => toString n
+  | some n => astIdStr n
   | none => "-"
 
 def astChainStr (nx : Nat → Option Nat) : Nat → Option Nat → String
   | _, none => ""
   | 0, some _ => "*"
-  | k + 1, some c => toString c ++ astChainStr nx k (nx c)
+  | k + 1, some c => astIdStr c ++ astChainStr nx k (nx c)
 
 def astDumpNode (n : Nat) (h : Heap) (i : Nat) : String :=
   String.intercalate "," [astOptDigit (parentNode h i), astOptDigit (nextSibling h i), astOptDigit (previousSibling h i),
